@@ -59,11 +59,12 @@ proof fn lemma_chunks(l: usize, n: usize)
 
 // const_transmute: reading field `b` of `union { a: A, b: B }` after writing `a` reinterprets size_of::<B>() bytes, of which only
 // size_of::<A>() were written: defined only when the sizes agree (what mem::transmute checks at compile time)
-pub struct Bits { pub size: usize }
+// `elems`: the element values stored in those bytes, in address order
+pub struct Bits { pub size: usize, pub ghost elems: Seq<int> }
 #[verifier::external_body]
 pub fn union_reinterpret(a: Bits, size_b: usize) -> (b: Bits)
     requires a.size == size_b,
-    ensures b.size == size_b,
+    ensures b.size == size_b, b.elems == a.elems,
 { unimplemented!() }
 
 // mem::transmute of a reference to a reference of another type with the same total extent: the address is unchanged
